@@ -1,5 +1,5 @@
 (** C06 — Key-value store equals last-writer-wins replay of its log in causal order. *)
-From Orbit Require Import Spec.Statements Proofs.ReplayProofs Proofs.GlobalProofs Proofs.Glue.
+From Orbit Require Import Spec.Statements Proofs.ReplayProofs Proofs.GlobalProofs Proofs.Glue Spec.GlobalExt Proofs.GlobalExtProofs.
 
 (** At every reachable state, every replica's key-value view represents (same lookup for
     every key, no duplicate keys, hence the same All()) the replay of the PUT/DEL
@@ -35,3 +35,11 @@ Theorem C06_causal :
       before x e (values (rlog rs')).
 Proof. exact causal_order. Qed.
 Print Assumptions C06_causal.
+
+(** The same for the extended system with the load routes (load from disk, snapshot). *)
+Theorem C06_kv_refines_replay_all_routes :
+  forall marks cont acc n dbid g i rs,
+    greach2 marks cont acc kv_okop n dbid g -> nth_error (greps g) i = Some rs ->
+    represents (rkv rs) (kv_replay (values (rlog rs))).
+Proof. exact kv_view2. Qed.
+Print Assumptions C06_kv_refines_replay_all_routes.
